@@ -112,6 +112,12 @@ def twin_projects():
             files["res/c.jst"] = twin_text("c", "owls")
             main += "INCLUDE res/c.jst\n"
         res.append((nm, "JSIGHT 0.3\n" + "".join(files[k] for k in sorted(files)), main, files))
+    # what an included file leaves open stays open: a '###' block comment (opened between directives / on a directive line / at
+    # the very beginning) that its file never closes (only the unclosed text is compared: closing it in the includer would split a
+    # comment, not move complete directives)
+    for k, body in enumerate(["TYPE @zopen1 any\n###\n  left open\n", "TYPE @zopen1 any ###\n  left open\n", "###\nTYPE @zhidden any\n"]):
+        rest = "TYPE @zrest any\nGET /zrest\n  200 any\n"
+        res.append(("unclosed_block_comment_%d" % k, "JSIGHT 0.3\n" + body + rest, "JSIGHT 0.3\nINCLUDE open.jst\n" + rest, {"open.jst": body}))
     # long chains of nested INCLUDEs of distinct files (depth, not count): every level adds one declaration and, at the
     # end, includes the next one; also as children of one method
     for depth in (8, 17, 24, 40):
